@@ -1342,6 +1342,12 @@ func preprocessStylesheetImports(deviceMediaType, baseUrl string, stylesheetRule
 						url = str.Value
 					case pa.String:
 						url = str.Value
+					case pa.FunctionBlock:
+						// the quoted form url("...") is a function token
+						if args := pa.RemoveWhitespace(str.Arguments); utils.AsciiLower(str.Name) == "url" && len(args) == 1 {
+							quoted, _ := args[0].(pa.String)
+							url = quoted.Value
+						}
 					}
 				} else {
 					continue
